@@ -388,6 +388,19 @@ func runC14Conc(c *Ctx) {
 					ret := model.RunOnTracker(st, op)
 					cp := deepCopyRet(ret)
 					t1 := clock.Tick()
+					// using a private snapshot (here: formatting it) needs no lock, whatever other goroutines do
+					if ret.Nick != nil {
+						_ = ret.Nick.String()
+					}
+					if ret.Chan != nil {
+						_ = ret.Chan.String()
+					}
+					if ret.Privs != nil {
+						_ = ret.Privs.String()
+					}
+					if g == 0 {
+						_ = st.String()
+					}
 					local = append(local, porcupine.Operation{ClientId: g, Input: c14In{op}, Call: t0, Output: c14Out{Ret: model.RetString(cp), Raw: cp}, Return: t1})
 				}
 				mu.Lock()
